@@ -31,11 +31,12 @@ type st = {
   mutable minsep : float;
   mutable pair : (float array * float array * string * string * float) option;
   mutable lj2 : (lj * lj * float * float) option;
+  mutable nomodel : bool;
 }
 
 let fresh () = { spec = ""; syms = []; site = None; cell = None; kind = '?'; segs = []; discs = []; ljs = [];
                  radius = 0.; area = 0.; rel = []; cart = []; img_hdr = None; imgs = []; score = None;
-                 carea = None; minsep = nan; pair = None; lj2 = None }
+                 carea = None; minsep = nan; pair = None; lj2 = None; nomodel = false }
 
 let tf_of_arr (a : float array) : tf =
   { a00 = f2c a.(0); a01 = f2c a.(1); a02 = f2c a.(2); a10 = f2c a.(3); a11 = f2c a.(4); a12 = f2c a.(5);
@@ -224,8 +225,9 @@ let main (path : string) : unit =
              c.lj2 <- Some ({ lx = h x1; ly = h y1; lsigma = h s1; leps = h e1; lcut = Option.map f2c (opt_float_of_tok c1) },
                             { lx = h x2; ly = h y2; lsigma = h s2; leps = h e2; lcut = Option.map f2c (opt_float_of_tok c2) },
                             float_of_hex eab, float_of_hex eba)
+         | 'N', _ -> c.nomodel <- true
          | 'E', _ ->
-             let r = (try run_case c with e -> "MISMATCH exception " ^ Printexc.to_string e) in
+             let r = if c.nomodel then "OK strength=bit band=0 nomodel" else (try run_case c with e -> "MISMATCH exception " ^ Printexc.to_string e) in
              Printf.printf "R %s | %s\n" c.spec r
          | _ -> ()
        end
